@@ -173,11 +173,42 @@ class SkResult(Ext):
 
 
 class SkArea(Ext):
+    """pathops.Path.area: the absolute sum of the signed contour areas.  Only for contours that came out of a fix_winding
+    call does `area == 0` say that the region is empty; on raw contours opposite windings cancel."""
+
     def __init__(self, path):
-        self.path = path
+        self.path = path.clone() if hasattr(path, "clone") else path
 
     def sym_copy(self):
         return self
+
+    def __repr__(self):
+        return f"area<{self.path.current_region()!r} normalized={self.path.normalized}>"
+
+    def _positive(self):
+        from sa.sym import Cond
+        return Cond("area-positive", (self,))
+
+    def sym_compare(self, it, sym, other):
+        from sa.sym import Cond, is_num, to_rf
+        if not (is_num(other) and to_rf(other).is_const() and to_rf(other).const_value() == 0):
+            raise Undecided(f"comparison of an engine area with {other!r}")
+        if sym == ">":
+            return self._positive()
+        if sym == "<=":
+            return Cond("not", (self._positive(),))
+        return sym == ">="  # an area is never negative
+
+    def sym_eq(self, it, other):
+        from sa.sym import Cond, is_num, to_rf
+        if other is self:
+            return True
+        if is_num(other) and to_rf(other).is_const() and to_rf(other).const_value() == 0:
+            return Cond("not", (self._positive(),))
+        raise Undecided(f"equality of an engine area with {other!r}")
+
+    def sym_truth(self, it):
+        return self._positive()
 
 
 class PathopsModel(Ext):
